@@ -1601,7 +1601,7 @@ func (l *c15Link) exchange(req **Requester, p, answer []byte) (completed bool) {
 	fits := requestFits(len(p), l.domain)
 	first := 4 * time.Second
 	if !fits {
-		first = 5 * time.Second // nothing is sent for such a request: no datagram to lose, no second attempt
+		first = 5 * time.Second
 	}
 	r, ok := l.try(*req, p, first)
 	if !ok {
@@ -1614,18 +1614,18 @@ func (l *c15Link) exchange(req **Requester, p, answer []byte) (completed bool) {
 			return false
 		}
 		*req = nr
-		if !fits {
-			h.out.Checked()
-			h.out.Count("exchange:" + l.name + ":oversize-request-hangs")
-			h.out.OracleFail("C15:exchange-oversize-request-hangs",
-				fmt.Sprintf("a %d-byte request does not fit a query under %s; RequestAndRecv neither sends it nor returns an error: it never returns", len(p), l.domain.String()), replay)
-			return true
-		}
 		if r, ok = l.try(*req, p, 12*time.Second); !ok {
 			l.abandoned[string(p)] = true
 			closeReq(*req)
 			if nr, err := l.newReq(); err == nil {
 				*req = nr
+			}
+			if !fits { // nothing is sent for such a request, so no datagram was lost: it is the caller that is stuck
+				h.out.Checked()
+				h.out.Count("exchange:" + l.name + ":oversize-request-hangs")
+				h.out.OracleFail("C15:exchange-oversize-request-hangs",
+					fmt.Sprintf("a %d-byte request does not fit a query under %s; RequestAndRecv neither sends it nor returns an error: it had not returned after 5 s and, tried again, after 12 s", len(p), l.domain.String()), replay)
+				return true
 			}
 			h.out.Count("exchange:" + l.name + ":incomplete")
 			if !l.lossy {
